@@ -9,19 +9,10 @@
 #![allow(clippy::all)]
 #![allow(dead_code)]
 
-pub mod arena;
-pub mod gen;
-pub mod monitors;
-pub mod neutral;
-pub mod observe;
-pub mod prng;
-pub mod refmodel;
-pub mod report;
-pub mod shell;
-
-use monitors::{Monitor, Tier};
-use prng::Prng;
-use report::Report;
+use epverif::{gen, monitors, prng, report, shell};
+use epverif::monitors::{Monitor, Tier};
+use epverif::prng::Prng;
+use epverif::report::Report;
 
 struct Args {
     prop: String,
@@ -98,7 +89,42 @@ fn parse_args() -> Args {
     a
 }
 
+/// `epverif dump-corpus <dir> <n> [seed]`: writes generated cases as fuzzer seed files
+fn dump_corpus(dir: &str, n: u64, seed: u64) {
+    use epverif::refmodel::pkt::Start;
+    std::fs::create_dir_all(dir).unwrap();
+    for i in 0..n {
+        let mut rng = Prng::for_case(seed, "corpus", i);
+        let o = if i % 3 == 0 { gen::GenOpts::clean() } else { gen::GenOpts::hostile() };
+        let c = gen::gen_case(&mut rng, &o);
+        if c.bytes.len() > 300 {
+            continue;
+        }
+        let b0: u8 = match c.start {
+            Start::Eth => 0,
+            Start::Sll => 2,
+            Start::Ip => 3,
+            Start::EtherType(0x0800) => 5,
+            Start::EtherType(0x86dd) => 6,
+            Start::EtherType(0x0806) => 7,
+            Start::EtherType(0x8100) => 8,
+            Start::EtherType(0x88e5) => 9,
+            Start::EtherType(0x88a8) => 10,
+            Start::EtherType(0x9100) => 11,
+            _ => continue,
+        };
+        let mut v = vec![b0];
+        v.extend_from_slice(&c.bytes);
+        std::fs::write(format!("{}/seed_{:05}", dir, i), v).unwrap();
+    }
+}
+
 fn main() {
+    let argv: Vec<String> = std::env::args().collect();
+    if argv.len() >= 4 && argv[1] == "dump-corpus" {
+        dump_corpus(&argv[2], argv[3].parse().unwrap_or(1000), argv.get(4).and_then(|s| s.parse().ok()).unwrap_or(1));
+        return;
+    }
     let args = parse_args();
     shell::install_panic_hook();
     if let Some(p) = &args.progress {
